@@ -249,7 +249,8 @@ def run(tier, seed):
              "projection (number attribute, number in the rendered text, uuid, text, note of every entry; block "
              "structure) after each call; sources: the calls TLC prints in MC_Reseq_gen (tree shape x old numbering x "
              "start x step), each under a low and a high number window (model Max 12 -> 2^32-1), plus seeded random "
-             "histories aimed at the 2^32 boundary, negative and huge arguments; non-trivial = object has at least one "
+             "histories aimed at the 2^32 boundary, negative and huge arguments, lists of equal lines renumbered repeatedly, "
+             "blocks inside blocks, IOS group-object members with loaded inner members; non-trivial = object has at least one "
              "line; distinct = distinct (class, platform, lines, calls)",
         samples=[dict(job=jobs[i], events=ev_lists[i]) for i in (0, len(jobs) // 2, len(jobs) - 1)],
         model_checking=mcs, generation=gen, trace_validation=vstats, exhaustive=False,
